@@ -73,6 +73,18 @@ def run(tier, seed, replay=None):
         if some:
             return ["comp", "OptW", ["comp", "Opt", ["comp", "Pair", rnd.choice(["q", "x", 1]), rnd.choice(["r", "y", 2])]], c]
         return ["comp", "OptW", ["comp", "Opt"], c]
+    # term fields before AND after the Option-typed field, variables left unbound, a disequality on one of them: the answer is
+    # fully reified (one name per variable, across the Option field) and carries the constraint
+    for _ in range(n // 4):
+        opt = ["comp", "Opt", ["comp", "Pair", rnd.choice(["y", "x", 1]), rnd.choice(["z", 2])]] if rnd.random() < 0.7 else ["comp", "Opt"]
+        w = ["comp", "WOpt", rnd.choice(["x", "x", "q", ["list", "x"]]), opt, rnd.choice(["z", "x", 3])]
+        goals = [["eq", "q", w] if w[2] != "q" else ["eq", "r", w]]
+        if rnd.random() < 0.7:
+            goals.append(["neq", rnd.choice(["x", "z"]), rnd.randint(4, 6)])
+        if rnd.random() < 0.3:
+            goals.append(["eq", rnd.choice(["y", "z"]), rnd.randint(7, 8)])
+        rnd.shuffle(goals)
+        cases.append(mk_case([], ["q", "r"], [["fresh", ["x", "y", "z"]] + goals]))
     for _ in range(n // 4):
         u, v = optw(rnd.random() < 0.6), optw(rnd.random() < 0.5)
         goals = [[rnd.choice(["eq", "eq", "neq"]), u, v]]
